@@ -548,12 +548,12 @@ PROGRAMS = {"*": [["universal"]],
             "/early": [["respond", 200, [["content-length", "5"]], ["early"]]],
             # WebSocket requests the application denies while its coroutine lives on
             "/deny": [["recv"], ["send", {"type": "websocket.close"}, "tolerate"],
-                      ["sleep", 20.0]],
+                      ["sleep", 50.0]],
             "/deny_http": [["recv"],
                            ["send", {"type": "websocket.http.response.start", "status": 401,
                                      "headers": [["content-length", "2"]]}, "tolerate"],
                            ["send", {"type": "websocket.http.response.body", "body": "no"},
-                            "tolerate"], ["sleep", 20.0]]}
+                            "tolerate"], ["sleep", 50.0]]}
 
 # ---- "odd" inputs: octets and volumes that real peers (or hostile ones) can put into fields
 # the grammars above keep well-formed.  Only the generic part of the oracle applies: no
